@@ -39,7 +39,10 @@ RULE = ("every multiset (size <= bound) of trees of U(n) (all rooted shapes on n
         "frequencies (and below the lowest), 1/2, 1.0, the library default} x consensus routes {TreeArray.consensus_tree, "
         "SplitDistribution.consensus_tree, TreeList.consensus}; every member (for <= 2-tree collections on <= 4 leaves every "
         "tree of U(n)) as summarisation and collapse target x summarisation settings; both credibility scores via TreeArray "
-        "and TreeList. A case = one (collection, route) frequency table, one (collection, threshold, route) consensus tree, one "
+        "and TreeList; plus histories: a TreeArray / SplitDistribution filled tree by tree (<= 3 trees, n <= 4) with every "
+        "pattern of {no read, one read, ordered pair of different reads} from {frequencies, edge-length summaries, node-age "
+        "summaries, consensus_tree, summarize_splits_on_tree} after every addition, each read compared with the reference over "
+        "the trees counted so far. A case = one history (tuple of trees, object, read pattern), one (collection, route) frequency table, one (collection, threshold, route) consensus tree, one "
         "(collection, target, setting, route) summarisation, one (collection, target, threshold, route) collapse, or one "
         "(collection, score, route) credibility tree; non-trivial = the collection contains at least one non-trivial split")
 ASSUMPTIONS = [
@@ -66,7 +69,10 @@ MANIFEST = {
              "inputs' rooting, is exactly {f >= t} above one half and a maximal compatible set chosen in decreasing frequency order "
              "below; support, edge-length and node-age summaries on every target equal the reference statistics under every "
              "summarisation setting; collapsing removes exactly the edges below the threshold and keeps root-to-tip distances; "
-             "credibility trees have the topology of an argmax of the scores the collection reports."),
+             "credibility trees have the topology of an argmax of the scores the collection reports.  Incremental use: on a "
+             "TreeArray / SplitDistribution filled tree by tree (<= 3 trees on <= 4 leaves), under all 26^k patterns of reads between "
+             "the additions, every frequency table, edge-length / node-age summary table, consensus tree and summarised target "
+             "equals the reference over exactly the trees counted so far (no stale cache in any read order)."),
     "note": "trusted: mc/ref.py clade/split/length arithmetic, harness accession log for bit indices, C01 for the split bitmask convention",
     "technique": "bounded-exhaustive enumeration against a set-based reference model",
 }
@@ -245,8 +251,9 @@ def live_walk(tree):
 class Coll(object):
     """One collection: reference side and factory for the library side."""
 
-    def __init__(self, cfg):
+    def __init__(self, cfg, shared_ns=None, case_hook=None):
         self.cfg = cfg
+        self.case_hook = case_hook
         self.n = cfg["n"]
         self.rooted = cfg["rooted"]
         self.is_rooted = bool(self.rooted)
@@ -258,7 +265,7 @@ class Coll(object):
         self.profile = cfg.get("profile", "std")
         self.labels = U.LABELS[:self.n]
         self.allc = frozenset(self.labels)
-        self.ns, self.bit = build.make_namespace(self.labels, self.nscfg)
+        self.ns, self.bit = shared_ns if shared_ns is not None else build.make_namespace(self.labels, self.nscfg)
         self.lowlabel = min(self.labels, key=lambda l: self.bit[l])
         self.allmask = sum(1 << self.bit[l] for l in self.labels)
         self.rootmask = self.allmask if self.is_rooted else 0
@@ -395,6 +402,8 @@ class Coll(object):
         return tl
 
     def case(self, **detail):
+        if self.case_hook is not None:
+            return self.case_hook(detail)
         c = dict(self.cfg)
         c["kind"] = "coll"
         c["trees"] = [ref.to_newick(sn) for sn in self.sns]
@@ -929,6 +938,216 @@ def check_collection(cfg, ctx):
 
 
 # ---------------------------------------------------------------------------
+# histories: a long-lived TreeArray / SplitDistribution filled tree by tree, with reads in between.
+# After the j-th addition every read must equal the reference computed from the first j trees.
+
+READS = ("F", "L", "A", "C", "S")
+READ_NAMES = {"F": "split_frequencies", "L": "split_edge_length_summaries", "A": "split_node_age_summaries",
+              "C": "consensus_tree", "S": "summarize_splits_on_tree"}
+
+
+def read_sequences():
+    """no read, each single read, each ordered pair of different reads (26)"""
+    out = [()]
+    out.extend((r,) for r in READS)
+    out.extend((r1, r2) for r1 in READS for r2 in READS if r1 != r2)
+    return out
+
+
+READ_SEQS = read_sequences()
+
+
+class History(object):
+    """Reference side of one ordered tuple of trees: one Coll per prefix, all over one namespace."""
+
+    def __init__(self, n, rooted, shapes, ages, route):
+        self.n, self.rooted, self.shapes, self.ages, self.route = n, rooted, tup(shapes), ages, route
+        self.lens = "ultra" if ages else "pos"
+        labels = U.LABELS[:n]
+        shared = build.make_namespace(labels, "exact")
+        self.ns = shared[0]
+        self.reads = None
+        self.colls = []
+        for j in range(1, len(self.shapes) + 1):
+            cfg = {"n": n, "rooted": rooted, "ns": "exact", "shapes": list(self.shapes[:j]), "weights": None, "utw": True,
+                   "lens": self.lens, "profile": "std"}
+            self.colls.append(Coll(cfg, shared_ns=shared, case_hook=self._case))
+        self.full = self.colls[-1]
+
+    def _case(self, detail):
+        return {"kind": "hist", "n": self.n, "rooted": self.rooted, "shapes": self.shapes, "ages": self.ages, "route": self.route,
+                "reads": [list(r) for r in self.reads], "trees": [ref.to_newick(sn) for sn in self.full.sns],
+                "read_names": READ_NAMES, "detail": detail}
+
+
+def _check_table(c, table, ref_vals, what, route, step, ctx):
+    """table: dict split bitmask -> summary dict of the library; ref_vals: split -> values of the first j trees"""
+    sig = "history:%s|%s|" % (route, what)
+    for s, vals in ref_vals.items():
+        ent = table.get(c.mask_of(s))
+        if ent is None:
+            ctx.violation(sig + "split-missing|%s" % c.tag, "after tree %d: no summary for split %s (values %r)" % (step, c.show(s), vals),
+                          c.case(read=what, step=step, split=c.show(s)))
+            return False
+        exp = [("mean", r_mean(vals)), ("median", r_median(vals)), ("range", (min(vals), max(vals)))]
+        if len(vals) >= 2:
+            exp.append(("sd", r_sd(vals)))
+        for name, w in exp:
+            g = ent.get(name, MISSING)
+            if name == "range":
+                good = g is not MISSING and g is not None and len(g) == 2 and feq(g[0], w[0]) and feq(g[1], w[1])
+            else:
+                good = g is not MISSING and feq(g, w)
+            if not good:
+                ctx.violation(sig + "value|%s" % c.tag,
+                              "after tree %d: %s of split %s is %r, reference over the %d trees counted so far (values %r) is %r" % (
+                                  step, name, c.show(s), None if g is MISSING else g, step, vals, w),
+                              c.case(read=what, step=step, split=c.show(s), stat=name))
+                return False
+    return True
+
+
+def run_history(h, reads, ctx):
+    """reads: tuple (one per tree) of read sequences.  Executes the history on a fresh object; False at the first violation."""
+    h.reads = reads
+    k = len(h.shapes)
+    route = h.route
+    if route == "TreeArray":
+        obj = TreeArray(taxon_namespace=h.ns, ignore_node_ages=not h.ages)
+        sd = obj.split_distribution
+    else:
+        obj = SplitDistribution(taxon_namespace=h.ns, ignore_node_ages=not h.ages)
+        sd = obj
+    ctx.case(("hist", route, h.n, h.rooted, h.shapes, h.ages, reads), nontrivial=k >= 2 and any(reads[1:]))
+    ctx.count("histories")
+    for j in range(1, k + 1):
+        c = h.colls[j - 1]
+        tree = h.full.fresh(j - 1)
+        try:
+            if route == "TreeArray":
+                obj.add_tree(tree)
+            else:
+                obj.count_splits_on_tree(tree)
+        except Exception as e:
+            ctx.violation("history:%s|add|exception|%s" % (route, type(e).__name__), repr(e), c.case(step=j))
+            return False
+        ctx.count("history_additions")
+        for r in reads[j - 1]:
+            ctx.count("history_reads")
+            try:
+                if r == "F":
+                    good = True
+                    keys = set(sd)
+                    want = dict((c.mask_of(s), (f, s)) for s, f in c.freq.items())
+                    extra = keys - set(want) - set([c.rootmask])
+                    if extra:
+                        ctx.violation("history:%s|split_frequencies|reports-split-in-no-tree|%s" % (route, c.tag),
+                                      "after tree %d: bitmasks %r reported" % (j, sorted(extra)), c.case(read="F", step=j))
+                        good = False
+                    for m, (f, s1) in want.items():
+                        if s1 in c.twice:
+                            continue  # known: the two-leaf unrooted tree counts its split twice (layer A reports it)
+                        got = sd[m]
+                        if got != f and not feq(got, f, 1e-12):
+                            ctx.violation("history:%s|split_frequencies|value|%s" % (route, c.tag),
+                                          "after tree %d: frequency of split %s is %r, fraction of the %d trees counted so far is %r" % (
+                                              j, c.show(s1), got, j, f), c.case(read="F", step=j, split=c.show(s1)))
+                            good = False
+                            break
+                elif r == "L":
+                    good = _check_table(c, sd.split_edge_length_summaries, c.vals, "split_edge_length_summaries", route, j, ctx)
+                elif r == "A":
+                    table = sd.split_node_age_summaries
+                    good = _check_table(c, table, c.ages, "split_node_age_summaries", route, j, ctx) if h.ages else True
+                elif r == "C":
+                    C = obj.consensus_tree(**ATTR_ONLY)
+                    name = "history:%s.consensus_tree" % route
+                    good = check_consensus(c, C, DEFAULT_MIN_FREQ, name, ctx, {"read": "C", "step": j}) and \
+                        check_summary(c, C, name, "default", ATTR_ONLY, ctx, {"read": "C", "step": j})
+                else:
+                    target = c.fresh_from(h.full.sns[0])
+                    obj.summarize_splits_on_tree(target, **ATTR_ONLY)
+                    good = check_summary(c, target, "history:%s.summarize_splits_on_tree" % route, "default", ATTR_ONLY, ctx,
+                                         {"read": "S", "step": j, "target": ref.to_newick(h.full.sns[0])})
+            except Exception as e:
+                ctx.violation("history:%s|%s|exception|%s" % (route, READ_NAMES[r], type(e).__name__), repr(e), c.case(read=r, step=j))
+                good = False
+            if not good:
+                return False
+    return True
+
+
+def history_tuples(tier):
+    """[(n, rooted, shapes, ages, route)] - the ordered tuples of trees on which every read pattern is explored"""
+    q = tier == "quick"
+    out = []
+    s3 = pool(3, "all")
+    s4 = pool(4, "all")
+    rep4 = [s for s in s4 if s in ((0, 1, 2, 3), ((0, 1), (2, 3)), (((0, 1), 2), 3), ((0, 1), 2, 3))]
+    variants = ((True, True), (False, False))     # (rooted, node ages): rooted ultrametric with ages; unrooted without
+    # one tree: every shape
+    for n, shapes in ((3, s3), (4, s4)):
+        for s in shapes:
+            for rooted, ages in variants:
+                for route in ("TreeArray", "SplitDistribution"):
+                    out.append((n, rooted, (s,), ages, route))
+    # two trees: every ordered pair
+    for n, shapes in ((3, s3), (4, rep4 if q else s4)):
+        for a in shapes:
+            for b in shapes:
+                for rooted, ages in variants:
+                    out.append((n, rooted, (a, b), ages, "TreeArray"))
+                    if n == 3 or (not q and a in rep4 and b in rep4):
+                        out.append((n, rooted, (a, b), ages, "SplitDistribution"))
+    # three trees (17 576 read patterns each)
+    if q:
+        trip = [(3, (s3[1], s3[1], s3[1])), (3, (s3[1], s3[2], s3[1])), (4, (rep4[1], rep4[2], rep4[1]))]
+    else:
+        trip = [(3, t) for t in itertools.combinations_with_replacement(s3, 3)]
+        trip += [(3, (s3[1], s3[2], s3[1])), (3, (s3[2], s3[1], s3[1])), (3, (s3[0], s3[1], s3[0]))]
+        trip += [(4, (a, b, a)) for a in rep4 for b in rep4]
+    for n, t in trip:
+        for rooted, ages in variants:
+            if q and not rooted and n == 3:
+                continue
+            out.append((n, rooted, tuple(t), ages, "TreeArray"))
+    return out
+
+
+def history_chunks(tier):
+    out = []
+    singles = []
+    for (n, rooted, shapes, ages, route) in history_tuples(tier):
+        base = {"layer": "H", "n": n, "rooted": rooted, "shapes": shapes, "ages": ages, "route": route}
+        if len(shapes) == 1:
+            singles.append(base)
+        elif len(shapes) == 2:
+            out.append(dict(base, first=None))
+        else:
+            for i in range(len(READ_SEQS)):
+                out.append(dict(base, first=i))
+    for lo in range(0, len(singles), 30):
+        out.append({"layer": "H1", "items": singles[lo:lo + 30]})
+    return out
+
+
+def run_history_chunk(chunk, ctx):
+    items = chunk["items"] if chunk["layer"] == "H1" else [chunk]
+    for it in items:
+        h = History(it["n"], it["rooted"], it["shapes"], it["ages"], it["route"])
+        k = len(h.shapes)
+        firsts = READ_SEQS if it.get("first") is None else [READ_SEQS[it["first"]]]
+        for first in firsts:
+            for rest in itertools.product(READ_SEQS, repeat=k - 1):
+                run_history(h, (first,) + rest, ctx)
+        ctx.count("history_tuples_x_first_read", 1)
+    if k >= 2:
+        ctx.sample({"history_of": [ref.to_newick(sn) for sn in h.full.sns], "rooted": h.rooted, "node_ages": h.ages,
+                    "object": h.route, "read_patterns": len(firsts) * len(READ_SEQS) ** (k - 1),
+                    "example": [list(r) for r in h.reads]}, 1)
+
+
+# ---------------------------------------------------------------------------
 # the named default threshold
 
 def check_const(ctx):
@@ -979,6 +1198,16 @@ def bounds(tier):
         "C_ages": {"n": [3, 4] if q else [3, 4, 5], "k_max": "3 (n=5: 2)", "k3_pool": "binary shapes for n=4" if q else "all shapes",
                    "rooted_only": True, "lens": "ultra", "profile": "ages"},
         "thresholds": "complete menu per collection: attainable frequencies, midpoints, 0.5, 1.0, default",
+        "H_histories": {"object": "one long-lived TreeArray (add_tree) or SplitDistribution (count_splits_on_tree) filled tree by tree",
+                        "reads": READ_NAMES, "after_each_addition": "no read, each single read, each ordered pair of different reads (26)",
+                        "patterns_per_tuple": "26^k: every combination over the k additions",
+                        "variants": ["rooted ultrametric, ignore_node_ages=False", "unrooted, position-dependent lengths"],
+                        "one_tree": "every shape of U(3), U(4), both objects",
+                        "two_trees": "every ordered pair of U(3) (both objects) and of %s (TreeArray%s)" % (
+                            ("4 representative shapes of U(4)", "") if q else ("U(4)", "; SplitDistribution for the 4 representative shapes")),
+                        "three_trees": "3 ordered triples (n=3: s,s,s and s,t,s; n=4: s,t,s), TreeArray" if q else
+                                       "every multiset of 3 of U(3) plus 3 re-orderings, and s,t,s for the 4 representative shapes of U(4), TreeArray",
+                        "oracle": "every read after the j-th addition equals the reference computed from the first j trees"},
         "profiles": {"full": "3 consensus routes x every threshold; 7 summarisation settings; every tree of U(n) as target",
                      "std": "as full, members as targets", "lean": "TreeArray.consensus_tree x every threshold, other routes at "
                      "default and lowest threshold; default setting", "freq": "frequency tables only",
@@ -1057,6 +1286,7 @@ def chunks(tier):
             total = _nmultisets(len(pool(n, pl)), k)
             for lo, hi in _slices(total, 60 if n < 5 else 100):
                 out.append({"layer": "C", "n": n, "k": [k], "rooted": True, "pool": pl, "lo": lo, "hi": hi})
+    out.extend(history_chunks(tier))
     return out
 
 
@@ -1074,6 +1304,9 @@ def run_chunk(chunk, ctx):
     layer = chunk["layer"]
     if layer == "const":
         check_const(ctx)
+        return None
+    if layer in ("H", "H1"):
+        run_history_chunk(chunk, ctx)
         return None
     n = chunk["n"]
     shapes = pool(n, chunk["pool"])
@@ -1113,6 +1346,9 @@ def replay(case, ctx):
     k = case.get("kind")
     if k == "const":
         check_const(ctx)
+    elif k == "hist":
+        h = History(case["n"], case["rooted"], case["shapes"], case["ages"], case["route"])
+        run_history(h, tuple(tuple(r) for r in case["reads"]), ctx)
     elif k == "coll":
         cfg = dict((key, case[key]) for key in ("n", "rooted", "ns", "shapes", "weights", "utw", "lens", "profile") if key in case)
         check_collection(cfg, ctx)
